@@ -102,7 +102,7 @@ CHECKS["C02"] = (True, TV, "differential translation validation: unoptimised vs 
     "Trusts z3 and the proxy model (floats as reals). The unoptimised build is the reference; no source-level oracle is involved.", "DESIGN.md 5 (C02)")
 
 CHECKS["C14"] = (True, MC, "bounded path search by SMT over the real IR: per function one z3 query over integer path variables asks for a CFG path reaching a use without passing the operand's definition; structural gate on references, operands, branch targets and calls",
-    "For every IR module the real compiler produces for families F1-F4 at both optimisation levels: a structural pass (references unique per function; each operand read through the instruction's "
+    "For every IR module the real compiler produces for families F1-F4, the F5 call/statement corner cases and the systematic store set (target parameter/local/global x stored value x position) at both optimisation levels: a structural pass (references unique per function; each operand read through the instruction's "
     "public properties is a constant of the function or a value-producing instruction still in a block; branch targets are blocks of the function, two when conditional; calls name a function "
     "of the linked program with equal arity) and, per function, one z3 query over path variables b_0..b_L (L < number of blocks, complete because violating paths can be made simple) "
     "that asks for a path entry -> use on which the operand's definition has not executed. unsat for all (use, operand) pairs = defined before use on every path.",
